@@ -276,7 +276,7 @@ theorem foldl_max_mem : ∀ (l : List Nat) (a : Nat), l.foldl max a = a ∨ l.fo
       · left; omega
     · right; exact List.mem_cons_of_mem _ h
 
-theorem filterMap_congr' {α β : Type} (f g : α → Option β) : ∀ (l : List α), (∀ a ∈ l, f a = g a) →
+theorem filterMap_congr_ext {α β : Type} (f g : α → Option β) : ∀ (l : List α), (∀ a ∈ l, f a = g a) →
     l.filterMap f = l.filterMap g := by
   intro l
   induction l with
@@ -288,7 +288,7 @@ theorem filterMap_congr' {α β : Type} (f g : α → Option β) : ∀ (l : List
 theorem eventBlocks_congr (c c' : Chain) (f t : Nat) (h : ∀ b, f ≤ b → b ≤ t → c b = c' b) :
     eventBlocks c f t = eventBlocks c' f t := by
   unfold eventBlocks
-  apply filterMap_congr'
+  apply filterMap_congr_ext
   intro b hb
   rw [List.mem_range'_1] at hb
   rw [h b hb.1 (by omega)]
